@@ -116,7 +116,8 @@ Definition verdict_with (mon : sdcase -> bool) (id : N) (c : sdcase) : list (lis
   if sd_hang c then [vrow id 1 (1, 0)]        (* a poll of the event stream that never returned *)
   else [vrow id 1 (judge (mon c) (same_as_model c) 0); [id; 90; 0; if theorem_applies c then 1 else 0]].
 
-Definition mon03 c := c03_ok (sd_items c) (sd_history c) (sd_terminated c).
+Definition mon03 c := c03_ok (sd_items c) (sd_history c) (sd_terminated c)
+                      && (negb (sd_terminated c) || c03_complete_ok (effective_ff c) (sd_items c) (sd_history c)).
 Definition mon04 c := c04_ok (effective_ff c) (sd_items c) (sd_history c) (sd_terminated c)
                       && c04_progress_ok (effective_ff c) (sd_items c) (sd_history c).
 Definition mon05 c := c05_ok (effective_ff c) (sd_items c) (sd_history c).
